@@ -23,7 +23,7 @@ from rs2v_kernels import (Untranslatable, Parser, Source, find_fn, tokenize, mat
 
 ERRORS = {"InvalidPType": "EInvalidPType", "InvalidPlusPType": "EInvalidPlusPType", "PictureFormatInvalid": "EPictureFormatInvalid",
           "InvalidBitstream": "EInvalidBitstream", "UnimplementedDecoding": "EUnimplemented", "InternalDecoderError": "EInternal",
-          "MiddleOfBitstream": "EMiddleOfBitstream", "PictureFormatMissing": "EPictureFormatMissing",
+          "MiddleOfBitstream": "EMiddleOfBitstream", "PictureFormatMissing": "EPictureFormatMissing", "UncodedIFrameBlocks": "EUncodedIFrameBlocks",
           "InvalidMacroblockHeader": "EInvalidMacroblockHeader", "InvalidMacroblockCodedBits": "EInvalidMacroblockCodedBits",
           "InvalidMvd": "EInvalidMvd", "InvalidGobHeader": "EInvalidGobHeader", "InvalidIntraDc": "EInvalidIntraDc",
           "InvalidShortCoefficient": "EInvalidShortCoefficient", "InvalidLongCoefficient": "EInvalidLongCoefficient"}
@@ -54,7 +54,7 @@ ENUM_METHODS = {("PictureTypeCode", "is_disposable"): "is_disposable", ("Macrobl
 VLC_TABLES = {"MCBPC_I_TABLE": ("mcbpc_i_table", "BlockPatternEntry"), "MCBPC_P_TABLE": ("mcbpc_p_table", "BlockPatternEntry"),
               "MODB_TABLE": ("modb_table", ("tup", ("bool", "bool"))), "CBPY_TABLE_INTRA": ("cbpy_table_intra", ("opt", ("list", "bool"))),
               "MVD_TABLE": ("mvd_table", ("opt", "HalfPel")), "TCOEF_TABLE": ("tcoef_table", ("opt", "ShortTCoefficient"))}
-COQ_OF_TYPE = {"H263State": "state", "PictureMap": "pmap", "DecodedPicture": "decoded_picture", "TCoefficient": "tcoef", "Block": "block", "ShortTCoefficient": "short_tcoef", "IntraDc": "Z",
+COQ_OF_TYPE = {"Plane": "plane", "H263State": "state", "PictureMap": "pmap", "DecodedPicture": "decoded_picture", "TCoefficient": "tcoef", "Block": "block", "ShortTCoefficient": "short_tcoef", "IntraDc": "Z",
                "MacroblockType": "mbtype", "BlockPatternEntry": "bpe", "Macroblock": "macroblock", "HalfPel": "Z", "MotionVector": "(Z * Z)", "CodedBlockPattern": "cbp",
                "SourceFormat": "source_format", "PictureTypeCode": "ptype_code", "PixelAspectRatio": "par_t",
                "MotionVectorRange": "mvrange", "BPictureQuantizer": "Z"}
@@ -281,14 +281,22 @@ class PEmitter:
                     tgt = tgt[1]
                 if tgt[0] == "var":
                     acc.add(tgt[1])
+                if tgt[0] == "index" and tgt[1][0] == "var":
+                    acc.add(tgt[1][1])
                 if tgt[0] == "field" and tgt[1] == ("var", "self"):
                     acc.add("self." + tgt[2])
             if node and node[0] == "mcall" and node[1] == ("var", "self") and node[2] == "cleanup_buffers":
                 acc |= {"self.last_picture", "self.reference_picture", "self.reference_states"}
             if node and node[0] == "mcall" and node[2] == "insert" and node[1] == ("field", ("var", "self"), "reference_states"):
                 acc.add("self.reference_states")
-            if node and node[0] == "mcall" and node[2] == "push" and node[1][0] == "var":
+            if node and node[0] == "mcall" and node[2] in ("push", "resize") and node[1][0] == "var":
                 acc.add(node[1][1])
+            if node and node[0] == "call" and node[1] == ("var", "gather") and len(node[2]) == 5 and node[2][4][0] == "ref" and node[2][4][1][0] == "var":
+                acc.add(node[2][4][1][1])
+            if node and node[0] == "mcall" and node[2] in ("as_luma_mut", "as_chroma_b_mut", "as_chroma_r_mut") and node[1][0] == "var":
+                acc.add(node[1][1])
+            if node and node[0] == "call" and node[1] == ("var", "inverse_rle") and len(node[2]) == 5 and node[2][1][0] == "ref" and node[2][1][1][0] == "var":
+                acc.add(node[2][1][1][1])
             if node and node[0] == "var" and node[1] in ("reader", "_reader"):
                 acc.add("$reader")
             for x in node:
@@ -401,6 +409,8 @@ class PEmitter:
             return self.struct(e, env, k)
         if kind == "array":
             return self.array_lit(e[1], 0, [], env, k)
+        if kind == "arrayrep" and e[1] == ("call", ("path", ["MotionVector", "zero"]), []) and e[2] == ("int", 4, None):
+            return k("mv4_zero", ("mvarr", 4), env)
         if kind == "if":
             return self.if_expr(e, env, k, want)
         if kind == "iflet":
@@ -423,6 +433,9 @@ class PEmitter:
 
     def bad(self, msg):
         raise Untranslatable(msg)
+
+    # functions of the decoder that are translated / modelled on their own; a call stands for the model's function
+    model_fns = {}
 
     def tvar_default(self):
         # an integer literal with no typed context: Rust falls back to i32
@@ -521,6 +534,8 @@ class PEmitter:
 
     def binop(self, op, a, ta, b, tb, env, k):
         ta, tb = resolve(ta), resolve(tb)
+        if ta == "MotionVector" and tb == "MotionVector" and op == "+":
+            return k("(mv_add %s %s)" % (a, b), "MotionVector", env)
         if ta == "HalfPel" and tb == "HalfPel" and op == "+":
             # impl Add for HalfPel: saturating addition, translated and bridged as a kernel (k_halfpel_add = hadd)
             return k("(hadd %s %s)" % (a, b), "HalfPel", env)
@@ -529,6 +544,10 @@ class PEmitter:
         if op in ("==", "!=", "<", "<=", ">", ">="):
             if ta == "bool" and tb == "bool":
                 c = "(Bool.eqb %s %s)" % (a, b)
+                return k(c if op == "==" else "(negb %s)" % c, "bool", env)
+            if isinstance(ta, tuple) and ta[0] == "opt" and ta == tb and isinstance(resolve(ta[1]), tuple) and resolve(ta[1])[0] == "tup" \
+                    and len(resolve(ta[1])[1]) == 2 and op in ("==", "!="):
+                c = "(opt_pair_eqb %s %s)" % (a, b)
                 return k(c if op == "==" else "(negb %s)" % c, "bool", env)
             if isinstance(ta, tuple) and ta[0] == "opt" or ta in ENUMS:
                 raise Untranslatable("comparison of %r values" % (ta,))
@@ -567,12 +586,22 @@ class PEmitter:
                 return k("(%s %s)" % (e[2], a), self.norm_field(ft[e[2]]), env)
             if isinstance(t, tuple) and t[0] == "tup" and e[2].isdigit() and len(t[1]) == 2:
                 return k("(%s %s)" % ("fst" if e[2] == "0" else "snd", a), t[1][int(e[2])], env)
+            if t == "CodedBlockPattern" and e[2] in ("codes_luma", "codes_chroma_b", "codes_chroma_r"):
+                return k("(%s %s)" % (e[2], a), ("boolarr", 4) if e[2] == "codes_luma" else "bool", env)
             raise Untranslatable("field access .%s on %r" % (e[2], t))
         return self.expr(e[1], env, after)
 
     def index(self, e, env, k):
         def on_base(a, t, env):
             t = resolve(t)
+            if isinstance(t, tuple) and t[0] == "boolarr" and e[2][0] == "int" and 0 <= e[2][1] < t[1]:
+                # a literal index into a fixed-size array cannot go out of bounds
+                return k("(nth %d %s false)" % (e[2][1], a), "bool", env)
+            if isinstance(t, tuple) and t[0] == "list" and e[2][0] == "range" and e[2][1] is not None and e[2][2] is None:
+                def on_from(i, ti, env):
+                    v = self.fresh("sl")
+                    return "let* %s := slice_from %s %s in\n  %s" % (v, a, i, k(v, t, env))
+                return self.expr(e[2][1], env, on_from, "usize")
             def on_idx(i, ti, env):
                 v = self.fresh("e")
                 if isinstance(t, tuple) and t[0] == "mvarr" and t[1] == 4:
@@ -691,6 +720,16 @@ class PEmitter:
             cname, _, rty = self.known[f[1]]
             def go(i, acc, env):
                 if i == len(args):
+                    v = self.fresh("v")
+                    return "let* %s := %s %s in\n  %s" % (v, cname, " ".join(acc), k(v, rty, env))
+                return self.expr(args[i], env, lambda a, t, env: go(i + 1, acc + [a], env))
+            return go(0, [], env)
+        if f[0] == "var" and f[1] in self.model_fns:
+            cname, kind, rty = self.model_fns[f[1]]
+            def go(i, acc, env):
+                if i == len(args):
+                    if kind == "pure":
+                        return k("(%s %s)" % (cname, " ".join(acc)), rty, env)
                     v = self.fresh("v")
                     return "let* %s := %s %s in\n  %s" % (v, cname, " ".join(acc), k(v, rty, env))
                 return self.expr(args[i], env, lambda a, t, env: go(i + 1, acc + [a], env))
@@ -890,6 +929,8 @@ class PEmitter:
         if name == "into" and not args:
             def into(a, t, env):
                 t = resolve(t)
+                if t == "u16" and resolve(want) == "usize":
+                    return k(a, "usize", env)
                 if t == ("tup", ("HalfPel", "HalfPel")):
                     return k(a, "MotionVector", env)
                 if t == "MotionVector":
@@ -925,6 +966,15 @@ class PEmitter:
                 return k("(dceil %s)" % a, "f64", env)
             if isinstance(t, str) and (t, name) in ENUM_METHODS and not args:
                 return k("(%s %s)" % (ENUM_METHODS[(t, name)], a), "bool", env)
+            if t == "MotionVector" and name == "average_sum_of_mvs" and not args:
+                v = self.fresh("s")
+                return "let %s := %s in\n  %s" % (v, a, k("(average_sum_of_mvs (fst %s), average_sum_of_mvs (snd %s))" % (v, v), "MotionVector", env))
+            if t == "DecodedPicture" and name in ("luma_samples_per_row", "chroma_samples_per_row", "as_luma", "as_chroma_b", "as_chroma_r") and not args:
+                fn, ty = {"luma_samples_per_row": ("d_width", "usize"), "chroma_samples_per_row": ("d_chroma_w", "usize"),
+                          "as_luma": ("d_luma", "Plane"), "as_chroma_b": ("d_cb", "Plane"), "as_chroma_r": ("d_cr", "Plane")}[name]
+                return k("(%s %s)" % (fn, a), ty, env)
+            if t == "DecodedPicture" and name in ("as_luma_mut", "as_chroma_b_mut", "as_chroma_r_mut") and not args and recv[0] == "var":
+                return k("@PLANE:%s:%s@" % (recv[1], {"as_luma_mut": "luma", "as_chroma_b_mut": "cb", "as_chroma_r_mut": "cr"}[name]), "PlaneMut", env)
             if t == "HalfPel" and name == "is_mv_within_range" and len(args) == 1:
                 return self.expr(args[0], env, lambda b, tb, env: k("(is_mv_within_range %s %s)" % (a, b), "bool", env))
             if t == "HalfPel" and name == "invert" and not args:
@@ -937,9 +987,15 @@ class PEmitter:
                 return k("(d_format %s)" % a, "SourceFormat", env)
             if name == "len" and not args and isinstance(t, tuple) and t[0] == "list":
                 return k("(zlength %s)" % a, "usize", env)
+            if name == "capacity" and not args and isinstance(t, tuple) and t[0] == "list" and recv[0] == "var" and (recv[1] + ".capacity") in env:
+                return k(env[recv[1] + ".capacity"][0], "usize", env)
+            if name == "into" and not args and t == "u16" and resolve(want) == "usize":
+                return k(a, "usize", env)
             if name == "saturating_sub" and len(args) == 1 and is_int(t):
                 lo, hi = INTS[t]
                 return self.expr(args[0], env, lambda b, tb, env: k("(clamp %s %s (%s - %s))" % (zlit(lo), zlit(hi), a, b), t, env), t)
+            if name == "clamp" and len(args) == 2 and is_int(t) and all(x[0] == "int" for x in args) and args[0][1] <= args[1][1]:
+                return k("(clamp %s %s %s)" % (zlit(args[0][1]), zlit(args[1][1]), a), t, env)
             if t == "MotionVector" and name == "median_of" and len(args) == 2:
                 # MotionVector::median_of is the component-wise HalfPel::median_of (translated and bridged as a kernel)
                 return self.expr(args[0], env, lambda b, tb, env: self.expr(args[1], env, lambda c, tc, env: k("(mv_median %s %s %s)" % (a, b, c), "MotionVector", env)))
@@ -960,6 +1016,10 @@ class PEmitter:
                     return k("(match %s with Some _ => true | None => false end)" % a, "bool", env)
                 if name == "is_none" and not args:
                     return k("(match %s with Some _ => false | None => true end)" % a, "bool", env)
+                if name == "unwrap_or" and len(args) == 1:
+                    return self.expr(args[0], env, lambda d, td, env: k("(match %s with Some x => x | None => %s end)" % (a, d), t[1], env), t[1])
+                if name == "unwrap_or_else" and len(args) == 1 and args[0] == ("path", ["MotionVector", "zero"]) and resolve(t[1]) == "MotionVector":
+                    return k("(match %s with Some x => x | None => mv_zero end)" % a, "MotionVector", env)
                 if name == "unwrap" and not args:
                     v = self.fresh("u")
                     return "match %s with\n  | None => Panic PAssert\n  | Some %s =>\n  %s\n  end" % (a, v, k(v, t[1], env))
@@ -1028,6 +1088,15 @@ class PEmitter:
             tgt = s[1]
             if tgt[0] == "field" and tgt[1] == ("var", "self") and ("self." + tgt[2]) in env:
                 tgt = ("var", "self." + tgt[2])
+            if tgt[0] == "index" and tgt[1][0] == "var" and tgt[1][1] in env and resolve(env[tgt[1][1]][1]) == ("mvarr", 4) \
+                    and tgt[2][0] == "int" and 0 <= tgt[2][1] < 4 and s[2] == "=":
+                # array[literal] = value: cannot go out of bounds
+                aname = tgt[1][1]
+                def stored(a, t, env):
+                    v = self.fresh(aname)
+                    env2 = dict(env); env2[aname] = (v, ("mvarr", 4))
+                    return "let %s := mv4_set %s %d %s in\n  %s" % (v, env[aname][0], tgt[2][1], a, rest(env2))
+                return self.expr(s[3], env, stored)
             if tgt[0] != "var" or tgt[1] not in env:
                 raise Untranslatable("assignment target")
             name = tgt[1]
@@ -1049,8 +1118,42 @@ class PEmitter:
                 return self.ret(e[1], env)
             if e[0] == "while":
                 return self.while_stmt(e, env, rest)
+            if e[0] == "for":
+                return self.for_stmt(e, env, rest)
+            if e[0] == "call" and e[1] == ("var", "gather_block") and len(e[2]) == 5:
+                return self.gather_block_call(e, env, rest)
+            if e[0] == "call" and e[1] == ("var", "inverse_rle") and len(e[2]) == 5 and e[2][1][0] == "ref" and e[2][1][1][0] == "var" and e[2][1][1][1] in env:
+                return self.inverse_rle_call(e, env, rest)
             if e[0] == "mcall" and e[2] == "push":
                 return self.expr(e, env, lambda a, t, env: rest(env))
+            if e[0] == "mcall" and e[2] == "resize" and len(e[3]) == 2 and e[1][0] == "var" and e[1][1] in env \
+                    and isinstance(resolve(env[e[1][1]][1]), tuple) and resolve(env[e[1][1]][1])[0] == "list":
+                vname = e[1][1]
+                def rz(n, tn, env):
+                    def rz2(x, tx, env):
+                        v = self.fresh(vname)
+                        env2 = dict(env); env2[vname] = (v, env[vname][1])
+                        return "let %s := vec_resize %s %s %s in\n  %s" % (v, env[vname][0], n, x, rest(env2))
+                    return self.expr(e[3][1], env, rz2)
+                return self.expr(e[3][0], env, rz, "usize")
+            if e[0] == "call" and e[1] == ("var", "idct_channel") and len(e[2]) == 4:
+                return self.idct_channel_call(e, env, rest)
+            if e[0] == "try" and e[1][0] == "call" and e[1][1] == ("var", "gather") and len(e[1][2]) == 5 and e[1][2][4][0] == "ref" \
+                    and e[1][2][4][1][0] == "var" and e[1][2][4][1][1] in env:
+                g = e[1][2]
+                pname = g[4][1][1]
+                def g1(ta, tt, env):
+                    def g2(ra, rt, env):
+                        def g3(va, vt, env):
+                            def g4(ma, mt, env):
+                                v = self.fresh(pname)
+                                env2 = dict(env); env2[pname] = (v, env[pname][1])
+                                # gather is translated and bridged on its own (gen/GenPGather.v, bridge_p_gather)
+                                return "let* %s := p_gather %s %s %s %s %s in\n  %s" % (v, ta, ra, va, ma, env[pname][0], rest(env2))
+                            return self.expr(g[3], env, g4, "usize")
+                        return self.expr(g[2], env, g3)
+                    return self.expr(g[1], env, g2)
+                return self.expr(g[0], env, g1)
             if e[0] == "mcall" and e[2] == "commit" and e[1] == ("var", "reader") and not e[3]:
                 return rest(env)          # commit() drops consumed bytes: the identity on the abstract reader (model/Reader.v)
             if e[0] == "mcall" and e[2] == "insert" and e[1] == ("field", ("var", "self"), "reference_states") and len(e[3]) == 2 \
@@ -1108,6 +1211,17 @@ class PEmitter:
                     names.append("_")
             # a fixed-size array in the code, a list in the model: any other length cannot occur
             return "match %s with\n  | [%s] =>\n  %s\n  | _ => Panic PAssert\n  end" % (a, "; ".join(names), rest(env2))
+        if pat[0] == "parray" and isinstance(t, tuple) and t[0] == "mvarr" and t[1] == len(pat[1]) and all(p[0] in ("pid", "pwild") for p in pat[1]):
+            names, env2 = [], dict(env)
+            for p in pat[1]:
+                if p[0] == "pid":
+                    v = self.fresh(p[1]); env2[p[1]] = (v, "MotionVector"); names.append(v)
+                else:
+                    names.append("_")
+            cp = names[0]
+            for nm in names[1:]:
+                cp = "(%s, %s)" % (cp, nm)
+            return "let '%s := %s in\n  %s" % (cp, a, rest(env2))
         raise Untranslatable("pattern %r" % (pat,))
 
     def join(self, branches_nodes, env, rest_with_value):
@@ -1205,6 +1319,10 @@ class PEmitter:
             if not bl:
                 bl = ["(_ : unit)"]
             rt_n = e["rt"] or rt_coq
+            m_pl = re.match(r"@PLAIN:(.*)@$", rt_n)
+            if m_pl:
+                texts[n] = "Definition %s %s : res %s :=\n  %s.\n" % (n, " ".join(bl), m_pl.group(1), render(e["body"]))
+                continue
             m_st = re.match(r"@STATE:(\w+)@", rt_n)
             if m_st:
                 mutated, envb = self.loop_state[m_st.group(1)]
@@ -1233,6 +1351,130 @@ class PEmitter:
         for e in self.lifted:
             e["body"] = fix(e["body"])
         return fix
+
+    def gather_block_call(self, e, env, rest):
+        """gather_block(src, samples_per_row, pos, mv, target.as_<plane>_mut()): the model's gather_block returns the new plane"""
+        src, spr, pos, mv, tgt = e[2]
+        def a1(sa, st, env):
+            def a2(pa, pt, env):
+                def a3(qa, qt, env):
+                    def a4(ma, mt, env):
+                        def a5(ta, tt, env):
+                            m = re.match(r"@PLANE:(\w+):(\w+)@", ta)
+                            if not m or m.group(1) not in env:
+                                raise Untranslatable("gather_block target")
+                            var, field = m.group(1), m.group(2)
+                            np_atom = env[var][0]
+                            pl, np2 = self.fresh("pl"), self.fresh(var)
+                            getter = {"luma": "d_luma", "cb": "d_cb", "cr": "d_cr"}[field]
+                            parts = {"luma": "(d_luma %s)" % np_atom, "cb": "(d_cb %s)" % np_atom, "cr": "(d_cr %s)" % np_atom}
+                            parts[field] = pl
+                            env2 = dict(env); env2[var] = (np2, env[var][1])
+                            return ("let* %s := gather_block %s %s (fst %s) (snd %s) %s (%s %s) in\n  let %s := mkDecoded (d_header %s) (d_format %s) %s %s %s (d_chroma_w %s) in\n  %s"
+                                    % (pl, sa, pa, qa, qa, ma, getter, np_atom, np2, np_atom, np_atom, parts["luma"], parts["cb"], parts["cr"], np_atom, rest(env2)))
+                        return self.expr(tgt, env, a5)
+                    return self.expr(mv, env, a4)
+                return self.expr(pos, env, a3)
+            return self.expr(spr, env, a2)
+        return self.expr(src, env, a1)
+
+    def idct_channel_call(self, e, env, rest):
+        """idct_channel(&levels, picture.as_<plane>_mut(), blk_per_line, samples_per_row): the model's idct_channel returns the plane"""
+        lev, tgt, bpl, spr = e[2]
+        def a1(la, lt, env):
+            def a2(ta, tt, env):
+                def a3(ba, bt, env):
+                    def a4(sa, st, env):
+                        m = re.match(r"@PLANE:(\w+):(\w+)@", ta)
+                        if not m or m.group(1) not in env:
+                            raise Untranslatable("idct_channel target")
+                        var, field = m.group(1), m.group(2)
+                        np_atom = env[var][0]
+                        pl, np2 = self.fresh("pl"), self.fresh(var)
+                        getter = {"luma": "d_luma", "cb": "d_cb", "cr": "d_cr"}[field]
+                        parts = {"luma": "(d_luma %s)" % np_atom, "cb": "(d_cb %s)" % np_atom, "cr": "(d_cr %s)" % np_atom}
+                        parts[field] = pl
+                        env2 = dict(env); env2[var] = (np2, env[var][1])
+                        return ("let* %s := idct_channel %s (%s %s) %s %s in\n  let %s := mkDecoded (d_header %s) (d_format %s) %s %s %s (d_chroma_w %s) in\n  %s"
+                                % (pl, la, getter, np_atom, ba, sa, np2, np_atom, np_atom, parts["luma"], parts["cb"], parts["cr"], np_atom, rest(env2)))
+                    return self.expr(spr, env, a4, "usize")
+                return self.expr(bpl, env, a3, "usize")
+            return self.expr(tgt, env, a2)
+        return self.expr(lev, env, a1)
+
+    def inverse_rle_call(self, e, env, rest):
+        """inverse_rle(&block, &mut levels, pos, blk_per_line, quant): the model's inverse_rle returns the new levels"""
+        blk, lev, pos, bpl, q = e[2]
+        lname = lev[1][1]
+        def a1(ba, bt, env):
+            def a2(pa, pt, env):
+                def a3(wa, wt, env):
+                    def a4(qa, qt, env):
+                        v = self.fresh(lname)
+                        env2 = dict(env); env2[lname] = (v, env[lname][1])
+                        return "let* %s := inverse_rle %s %s (fst %s) (snd %s) %s %s in\n  %s" % (v, ba, env[lname][0], pa, pa, wa, qa, rest(env2))
+                    return self.expr(q, env, a4)
+                return self.expr(bpl, env, a3, "usize")
+            return self.expr(pos, env, a2)
+        return self.expr(blk, env, a1)
+
+    def for_stmt(self, e, env, rest):
+        """`for (i, (a, b)) in X.iter().zip(Y.iter()).enumerate() { BODY }`: the body becomes a function of the index, the two
+        elements and the variables it assigns; the loop is `for_zip_enum` of base/Checked.v (structural recursion on the lists)"""
+        pat, it, body = e[1], e[2], e[3]
+        ok = (it[0] == "mcall" and it[2] == "enumerate" and it[1][0] == "mcall" and it[1][2] == "zip" and len(it[1][3]) == 1
+              and it[1][1][0] == "mcall" and it[1][1][2] == "iter" and it[1][3][0][0] == "mcall" and it[1][3][0][2] == "iter"
+              and pat[0] == "ptuple" and len(pat[1]) == 2 and pat[1][0][0] == "pid" and pat[1][1][0] == "ptuple"
+              and len(pat[1][1][1]) == 2 and all(q[0] == "pid" for q in pat[1][1][1]))
+        if not ok:
+            raise Untranslatable("for loop other than `for (i, (a, b)) in x.iter().zip(y.iter()).enumerate()`")
+        for node in self.returns_in(body):
+            if not (node[0] == "call" and node[1] == ("var", "Err")):
+                raise Untranslatable("`return` of a value inside a loop")
+        la, lb = it[1][1][1], it[1][3][0][1]
+        iv, av, bv = pat[1][0][1], pat[1][1][1][0][1], pat[1][1][1][1][1]
+        def on_a(la_a, la_t, env):
+            def on_b(lb_a, lb_t, env):
+                la_t2, lb_t2 = resolve(la_t), resolve(lb_t)
+                if not (isinstance(la_t2, tuple) and la_t2[0] == "list" and isinstance(lb_t2, tuple) and lb_t2[0] == "list"):
+                    raise Untranslatable("zip of %r and %r" % (la_t2, lb_t2))
+                mutated = sorted(v for v in self.assigned_or_planes(body) if v in env and v != "$reader")
+                if len(mutated) != 1:
+                    raise Untranslatable("for loop with other than one state variable")
+                sv = mutated[0]
+                kname = self.fresh("forbody")
+                pi, pa, pb, ps = self.fresh(iv), self.fresh(av), self.fresh(bv), self.fresh(sv)
+                envb = dict(env)
+                envb[iv] = (pi, "usize"); envb[av] = (pa, la_t2[1]); envb[bv] = (pb, lb_t2[1]); envb[sv] = (ps, env[sv][1])
+                saved_rt = getattr(self, "cur_rt", None)
+                st_coq = coq_of(env[sv][1], self.defs_for_types)
+                self.cur_rt = "@PLAIN:%s@" % st_coq
+                saved_out = getattr(self, "out_param", None)
+                self.out_param = None
+                body_code = self.block(body, envb, lambda a, t, env2: "Ok %s" % env2[sv][0])
+                self.out_param = saved_out
+                self.cur_rt = saved_rt
+                callf = self.lift(kname, [(pi, "usize"), (pa, la_t2[1]), (pb, lb_t2[1])], [sv], [ps], env, body_code, rt="@PLAIN:%s@" % st_coq)
+                out = self.fresh(sv)
+                env3 = dict(env); env3[sv] = (out, env[sv][1])
+                call = callf([pi, pa, pb], {sv: (ps, None)})
+                return "let* %s := for_zip_enum (fun %s %s %s %s => %s) %s %s 0 %s in\n  %s" % (out, pi, pa, pb, ps, call, la_a, lb_a, env[sv][0], rest(env3))
+            return self.expr(lb, env, on_b)
+        return self.expr(la, env, on_a)
+
+    def assigned_or_planes(self, node):
+        acc = self.assigned(node, set())
+        def walk(n):
+            if isinstance(n, tuple):
+                if n and n[0] == "mcall" and n[2] in ("as_luma_mut", "as_chroma_b_mut", "as_chroma_r_mut") and n[1][0] == "var":
+                    acc.add(n[1][1])
+                for x in n:
+                    walk(x)
+            elif isinstance(n, list):
+                for x in n:
+                    walk(x)
+        walk(node)
+        return acc
 
     def while_stmt(self, e, env, rest):
         """`while COND { BODY }`: the body becomes a function of the loop state (the variables it assigns) and the reader; the
@@ -1768,6 +2010,8 @@ class PEmitter:
                 pass
         if self.union_none and a == "None":
             return "Ok (None, %s)" % self.union_none          # with_transaction_union: Ok(None) leaves the reader where it was
+        if self.pure and getattr(self, "out_param", None):
+            return "Ok %s" % env[self.out_param][0]
         if self.pure:
             return "Ok %s" % a
         return "Ok (%s, %s)" % (a, env["$reader"][0])
@@ -2042,6 +2286,8 @@ def gen_parser(repo, status, write):
                hintdb="pgenmb")
     gen_pure(repo, status, write)
     gen_state(repo, status, write)
+    gen_gather(repo, status, write)
+    gen_loop(repo, status, write)
 
 
 def gen_pure(repo, status, write):
@@ -2115,6 +2361,159 @@ def state_writes(node, out):
         for x in node:
             state_writes(x, out)
     return out
+
+
+def gen_gather(repo, status, write):
+    """decoder/cpu/gather.rs, fn gather: the loop over the macroblocks (reference check, size guard, the six gather_block calls
+    with their positions and vectors, the chroma vector); gather_block itself stays the model's function"""
+    fname, rel = "GenPGather.v", "h263/src/decoder/cpu/gather.rs"
+    body = ("(* GENERATED by tools/rs2v.py (rs2v_parser) from %s -- do not edit. *)\n"
+            "From H263V Require Import base.Prelude base.Checked model.Types model.Tables model.Reader model.Header model.Syntax model.Recon.\n"
+            "Create HintDb pgengather.\n\n" % rel)
+    key = "parser.p_gather"
+    try:
+        src = Source(repo, rel)
+        defs = Defs(repo)
+        params, ret, fbody = find_fn_generic(src.toks, "gather")
+        em = PEmitter(defs, {}, {})
+        em.pure = True
+        em.fname = "p_gather"
+        em.rty = "DecodedPicture"
+        em.out_param = "new_picture"
+        env = {"mb_types": ("a_mb_types", ("list", "MacroblockType")),
+               "reference_picture": ("a_reference_picture", ("opt", "DecodedPicture")),
+               "mvs": ("a_mvs", ("list", ("mvarr", 4))),
+               "mb_per_line": ("a_mb_per_line", "usize"),
+               "new_picture": ("a_new_picture", "DecodedPicture"), "$reader": ("tt", "reader")}
+        if [pn for pn, _ in params] != ["mb_types", "reference_picture", "mvs", "mb_per_line", "new_picture"]:
+            raise Untranslatable("parameters of gather")
+        code = em.ret_block(fbody, env)
+        lt, ln, code = em.resolve_lifted(code, "decoded_picture")
+        body += "".join(em.finish(l).replace("res (decoded_picture * reader)", "res decoded_picture") + "\n" for l in lt)
+        for n in ln:
+            body += "#[global] Hint Unfold %s : pgengather.\n" % n
+        body += ("\nDefinition p_gather (a_mb_types : list mbtype) (a_reference_picture : option decoded_picture) (a_mvs : list mv4) "
+                 "(a_mb_per_line : Z) (a_new_picture : decoded_picture) : res decoded_picture :=\n  %s.\n" % em.finish(code))
+        status[key] = "ok"
+    except Untranslatable as e:
+        body += "(* p_gather: untranslatable: %s *)\n" % str(e).replace("*)", "* )")
+        status[key] = "untranslatable: %s" % e
+    write(fname, body)
+
+
+def gen_loop(repo, status, write):
+    """decoder/state.rs, decode_next_picture: the body of the `Ok(Macroblock::Coded { .. })` arm of the macroblock loop (with the
+    position and the fresh motion-vector array computed before the match) as a function of the loop variables, and the
+    statements between the loop and the commit phase (padding, gather, the three idct_channel calls)"""
+    fname, rel = "GenPLoop.v", "h263/src/decoder/state.rs"
+    body = ("(* GENERATED by tools/rs2v.py (rs2v_parser) from %s -- do not edit. *)\n"
+            "From H263V Require Import base.Prelude base.Checked model.Types model.Tables model.Reader model.Header model.Syntax model.Recon model.Decoder gen.GenPGather.\n"
+            "Create HintDb pgenloop.\n\n" % rel)
+    keys = ["parser.p_coded", "parser.p_epilogue"]
+    L = ("list", "DecodedDctBlock")
+    try:
+        src = Source(repo, rel)
+        defs = Defs(repo)
+        params, ret, fbody = find_fn_generic(src.toks, "decode_next_picture")
+        tail = fbody[2]
+        if not (fbody[0] == "block" and tail is not None and tail[0] == "mcall" and tail[2] == "with_transaction" and tail[3] and tail[3][0][0] == "closure"):
+            raise Untranslatable("decode_next_picture is not `reader.with_transaction(|reader| { .. })`")
+        stmts = tail[3][0][2][1]
+        li = [i for i, st in enumerate(stmts) if st[0] == "expr" and st[1][0] == "loop"]
+        if len(li) != 1:
+            raise Untranslatable("the macroblock loop")
+        lbody = stmts[li[0]][1][1]
+        if lbody[0] != "block":
+            raise Untranslatable("loop body")
+        lst = lbody[1]
+        # ---- the Coded arm
+        try:
+            mi = [i for i, st in enumerate(lst) if st[0] == "let" and st[3] is not None and st[3][0] == "match" and st[3][1] == ("var", "mb")]
+            if len(mi) != 1:
+                raise Untranslatable("`let .. = match mb { .. }` in the loop")
+            pre = [st for st in lst[:mi[0]] if st[0] == "let" and st[1] in (("pid", "pos"), ("pid", "motion_vectors"))]
+            if len(pre) != 2:
+                raise Untranslatable("`let pos` / `let mut motion_vectors` before the match")
+            arms = [a for a in lst[mi[0]][3][2] if a[0][0] == "pctor" and a[0][1] == ["Ok"] and len(a[0][2]) == 1 and a[0][2][0][0] == "pstruct"
+                    and a[0][2][0][1] == ["Macroblock", "Coded"]]
+            if len(arms) != 1 or arms[0][1] is not None or arms[0][2][0] != "block":
+                raise Untranslatable("the Ok(Macroblock::Coded { .. }) arm")
+            fields = dict(arms[0][0][2][0][2])
+            FT = {"mb_type": ("a_mb_type", "MacroblockType"), "coded_block_pattern": ("a_cbp", "CodedBlockPattern"), "d_quantizer": ("a_dq", ("opt", "i8")),
+                  "motion_vector": ("a_mv", ("opt", "MotionVector")), "addl_motion_vectors": ("a_addl", ("opt", ("mvarr", 3)))}
+            em = PEmitter(defs, {"decode_block": ("decode_block", ["DecoderOption", "Picture", "PictureOption", "MacroblockType", "bool"], "Block")}, {})
+            em.model_fns = {"predict_candidate": ("predict_candidate", "res", "MotionVector"), "mv_decode": ("mv_decode", "pure", "MotionVector")}
+            em.fname, em.rty = "p_coded", None
+            env = {"self": ("a_self", "H263State"), "self.decoder_options": ("a_o", "DecoderOption"),
+                   "in_force_quantizer": ("a_q", "u8"), "predictor_vectors": ("a_pvs", ("list", ("mvarr", 4))),
+                   "macroblock_types": ("a_types", ("list", "MacroblockType")), "macroblocks_after_gob": ("a_after", "usize"),
+                   "mb_per_line": ("a_mpl", "usize"), "next_decoded_picture": ("a_np", "DecodedPicture"), "next_running_options": ("a_running", "PictureOption"),
+                   "luma_levels": ("a_luma", L), "chroma_b_levels": ("a_cb", L), "chroma_r_levels": ("a_cr", L),
+                   "level_dimensions": ("a_lev", ("tup", ["usize", "usize"])), "$reader": ("r0", "reader")}
+            for f, pat in fields.items():
+                if pat[0] == "pid" and not pat[1].startswith("_"):
+                    if f not in FT:
+                        raise Untranslatable("field %s of Macroblock::Coded is used" % f)
+                    env[pat[1]] = FT[f]
+            names = ["in_force_quantizer", "motion_vectors", "luma_levels", "chroma_b_levels", "chroma_r_levels"]
+            def fin(a, t, envx):
+                return "Ok ((%s, %s), %s)" % (", ".join(envx[n][0] for n in names), a, envx["$reader"][0])
+            blk = arms[0][2]
+            code = em.stmts(pre + blk[1], 0, blk[2], env, fin, None)
+            rt = "(Z * mv4 * list dct_block * list dct_block * list dct_block * mbtype)"
+            lt, ln, code = em.resolve_lifted(code, rt)
+            body += "".join(em.finish(l) + "\n" for l in lt)
+            for n in ln:
+                body += "#[global] Hint Unfold %s : pgenloop.\n" % n
+            body += ("Definition p_coded (a_o : dec_opts) (a_np : decoded_picture) (a_running a_mpl : Z) (a_lev : Z * Z) (a_after : Z) (a_mb_type : mbtype) (a_cbp : cbp) "
+                     "(a_dq : option Z) (a_mv : option mv) (a_addl : option (mv * mv * mv)) (a_q : Z) (a_pvs : list mv4) (a_types : list mbtype) "
+                     "(a_luma a_cb a_cr : list dct_block) (r0 : reader) : res (%s * reader) :=\n  %s.\n\n" % (rt, em.finish(code)))
+            status[keys[0]] = "ok"
+        except Untranslatable as ex:
+            body += "(* p_coded: untranslatable: %s *)\n\n" % str(ex).replace("*)", "* )")
+            status[keys[0]] = "untranslatable: %s" % ex
+        # ---- between the loop and the commit phase
+        try:
+            idx = max([i for i, st in enumerate(stmts) if contains_call(st, "idct_channel") or contains_call(st, "gather")], default=None)
+            if idx is None or idx <= li[0]:
+                raise Untranslatable("no reconstruction step after the loop")
+            epi = stmts[li[0] + 1: idx + 1]
+            caps = {}
+            for st in stmts[:li[0]]:
+                if st[0] == "let" and st[1][0] == "pid" and st[3] is not None and st[3][0] == "call" and st[3][1] == ("path", ["Vec", "with_capacity"]) and len(st[3][2]) == 1:
+                    caps[st[1][1]] = st[3][2][0]
+            if set(caps) != {"predictor_vectors", "macroblock_types"} or caps["predictor_vectors"] != caps["macroblock_types"]:
+                raise Untranslatable("the two Vec::with_capacity(..) of the macroblock vectors")
+            em = PEmitter(defs, {}, {})
+            em.fname, em.rty, em.pure = "p_epilogue", None, True
+            env = {"predictor_vectors": ("a_pvs", ("list", ("mvarr", 4))), "macroblock_types": ("a_types", ("list", "MacroblockType")),
+                   "predictor_vectors.capacity": ("a_total", "usize"), "macroblock_types.capacity": ("a_total", "usize"),
+                   "reference_picture": ("a_reference", ("opt", "DecodedPicture")), "mb_per_line": ("a_mpl", "usize"),
+                   "next_decoded_picture": ("a_np", "DecodedPicture"), "output_dimensions": ("a_dims", ("tup", ["u16", "u16"])),
+                   "luma_levels": ("a_luma", L), "chroma_b_levels": ("a_cb", L), "chroma_r_levels": ("a_cr", L), "$reader": ("tt", "reader")}
+            code = em.stmts(epi, 0, None, env, lambda a, t, envx: "Ok %s" % envx["next_decoded_picture"][0], None)
+            if em.lifted:
+                raise Untranslatable("control flow with early exits between the loop and the commit phase")
+            # the capacity of both vectors, as an expression of mb_per_line and mb_height
+            em2 = PEmitter(defs, {}, {})
+            em2.pure = True
+            h = {}
+            def cap(a, t, envx):
+                h["a"] = a
+                return "Ok %s" % a
+            capcode = em2.expr(caps["predictor_vectors"], {"mb_per_line": ("a_mpl", "usize"), "mb_height": ("a_mbh", "usize"), "$reader": ("tt", "reader")}, cap, "usize")
+            body += "(* the capacity both macroblock vectors are created with *)\nDefinition p_capacity (a_mpl a_mbh : Z) : res Z :=\n  %s.\n\n" % em2.finish(capcode)
+            body += ("Definition p_epilogue (a_types : list mbtype) (a_pvs : list mv4) (a_total : Z) (a_reference : option decoded_picture) (a_mpl : Z) "
+                     "(a_np : decoded_picture) (a_dims : Z * Z) (a_luma a_cb a_cr : list dct_block) : res decoded_picture :=\n  %s.\n" % em.finish(code))
+            status[keys[1]] = "ok"
+        except Untranslatable as ex:
+            body += "(* p_epilogue: untranslatable: %s *)\n" % str(ex).replace("*)", "* )")
+            status[keys[1]] = "untranslatable: %s" % ex
+    except Untranslatable as e:
+        for k in keys:
+            status.setdefault(k, "untranslatable: %s" % e)
+        body += "(* untranslatable: %s *)\n" % str(e).replace("*)", "* )")
+    write(fname, body)
 
 
 def gen_state(repo, status, write):
